@@ -386,7 +386,15 @@ class Built:
         linecache.cache.pop(self.module.__file__, None)
 
 
-def load(prog: Dict[str, Any], source: Optional[str] = None) -> Built:
+def load(prog: Dict[str, Any], source: Optional[str] = None, reset: bool = True) -> Built:
+    """`reset`: apischema caches compiled methods in lru_caches keyed by type *equality*, and
+    Union[A, B] == Union[B, A], Literal[1, 2] == Literal[2, 1]: without a reset a case could be
+    served the method compiled for an earlier, differently ordered program (that staleness is
+    C09's subject and must not leak into the other properties)."""
+    if reset:
+        import apischema.cache
+
+        apischema.cache.reset()
     if source is None:
         source = render(prog)
     name = f"vgen_{next(_counter)}"
